@@ -21,6 +21,7 @@ EXPLANATION = (
     "directions and raise for unknown entries; R5 the raw/phys/desc/bits/read/write views are defined once in Variable "
     "over get_data/set_data and neither SdoVariable nor PdoVariable overrides any of them; R6 structural assumptions shared by all properties: no class-level mutable object is mutated in place by instances, no method re-runs the constructor, logging statements cannot raise (typed eager formatting, divisions), no mutable default argument is kept or mutated, no new truth-value test of a None-able number."
     ' R2 accepts a handler that only rejects (raise / nothing) where it demanded pass.'
+    ' R3 decides the rounding of encode_phys by evaluation for ten quotients.'
 )
 ASSUMPTIONS = [
     "not decided: floating-point rounding for all factors; values that do not fit the addressed bit field",
